@@ -103,14 +103,27 @@ def extract() -> dict:
         raise TranslatorError(f"Token.unserialize: struct format {fmt!r} is not >{{a}}s{{b}}s{{sig_len}}s")
     out["prevLen"], out["chashLen"] = int(m.group(1)), int(m.group(2))
     kw = {k.arg: k.value for k in fmts[0].keywords}
-    if not (len(fmts[0].args) >= 2 and isinstance(kw.get("offset"), ast.Name) and kw["offset"].id == "offset"):
-        raise TranslatorError("Token.unserialize: unpack_from must read at offset=offset")
-    # the three unpacked fields must feed Token(previous_token_hash, content_hash=..., signature=...) in this order
+    off = kw.get("offset", fmts[0].args[2] if len(fmts[0].args) >= 3 else None)
     fn = _fn(tk, "unserialize")
-    asg = [s for s in fn.body if isinstance(s, ast.Assign) and isinstance(s.targets[0], ast.Tuple)]
-    if len(asg) != 1 or [getattr(e, "id", None) for e in asg[0].targets[0].elts] != \
-            ["previous_token_hash", "content_hash", "signature"]:
-        raise TranslatorError("Token.unserialize: expected `previous_token_hash, content_hash, signature = ...`")
+    params = [a.arg for a in fn.args.args]
+    if not (len(fmts[0].args) >= 2 and isinstance(fmts[0].args[1], ast.Name) and fmts[0].args[1].id in params
+            and isinstance(off, ast.Name) and off.id in params):
+        raise TranslatorError("Token.unserialize: unpack_from must read the given data at the given offset")
+    # the three unpacked fields must feed Token(<1st>, content_hash=<2nd>, signature=<3rd>)
+    asg = [s for s in fn.body if isinstance(s, ast.Assign) and isinstance(s.targets[0], ast.Tuple)
+           and s.value is fmts[0]]
+    if len(asg) != 1 or len(asg[0].targets[0].elts) != 3 or \
+            not all(isinstance(e, ast.Name) for e in asg[0].targets[0].elts):
+        raise TranslatorError("Token.unserialize: expected `a, b, c = struct.unpack_from(...)`")
+    n1, n2, n3 = (e.id for e in asg[0].targets[0].elts)
+    rets = [s for s in fn.body if isinstance(s, ast.Return)]
+    call = rets[0].value if len(rets) == 1 else None
+    ckw = {k.arg: k.value for k in call.keywords} if isinstance(call, ast.Call) else {}
+    if not (isinstance(call, ast.Call) and len(call.args) == 1 and getattr(call.args[0], "id", None) == n1
+            and getattr(ckw.get("content_hash"), "id", None) == n2
+            and getattr(ckw.get("signature"), "id", None) == n3 and set(ckw) == {"content_hash", "signature"}):
+        raise TranslatorError("Token.unserialize: expected `return Token(<1st field>, content_hash=<2nd>, "
+                              "signature=<3rd>)`")
     # get_plaintext: previous_token_hash + content_hash
     gp = _fn(tk, "get_plaintext")
     rets = [s for s in gp.body if isinstance(s, ast.Return)]
